@@ -458,11 +458,15 @@ def do_query(q, tier, seed, validate=True):
         wvals = None
         if not wit:
             rec['reason'] = 'harness has no VF-WITNESS assertion'; return rec
+        unwind_deferred = None
         for r in fails:
             k = classify(r, q.ob)
             if k == 'outside' and r.get('status') == 'FAILURE':
                 rec['reason'] = 'bound exceeded: ' + r.get('description', '')[:200]; return rec
             if k == 'unwind' and r.get('status') == 'FAILURE' and not q.ob.get('unwind_is_oracle'):
+                # a loop that runs off the end of a buffer also exhausts its bound: if a memory-safety failure is reported
+                # as well, that one is tried first (confirmed natively = violation); otherwise the bound is too small
+                if any(x.get('status') == 'FAILURE' and classify(x, q.ob) == 'memsafety' for x in fails): unwind_deferred = r; continue
                 rec['reason'] = 'unwinding bound too small: ' + r.get('property', ''); return rec
         has_failure = any(r.get('status') == 'FAILURE' and classify(r, q.ob) in ('assertion', 'memsafety') for r in fails)
         if all(w.get('status') == 'FAILURE' for w in wit):
@@ -480,6 +484,7 @@ def do_query(q, tier, seed, validate=True):
             if k == 'outside':
                 rec['reason'] = 'bound exceeded: ' + r.get('description', '')[:200]; return rec
             if k == 'unwind' and not q.ob.get('unwind_is_oracle'):
+                if unwind_deferred is not None: continue
                 rec['reason'] = 'unwinding bound too small: ' + r.get('property', ''); return rec
             cands.append(r)
         if unknown and not cands:
@@ -498,6 +503,8 @@ def do_query(q, tier, seed, validate=True):
             v = dict(property=r['property'], description=r.get('description'), kind=cf_['kind'], confirmed=cf_['confirmed'], detail=cf_['detail'],
                      values=[[t, x] for t, x in vals][:400], location=(r.get('sourceLocation') or {}).get('function'))
             rec['violations'].append(v)
+        if unwind_deferred is not None and not mem_confirmed:
+            rec['violations'] = []; rec['reason'] = 'unwinding bound too small: ' + unwind_deferred.get('property', ''); return rec
         if validate and q.ob.get('validate', True):
             n, reached, mism = validate_translation(q, wvals, 6 if tier == 'quick' else 24, seed)
             rec['translation_runs'] = n; rec['translation_reached_end'] = reached
